@@ -13,7 +13,8 @@ Completion times up to rounding are numeric and not decided.
 """
 import ast
 
-from ..engine import Analysis, is_call_to, is_suspension, short, where_fn, call_receiver
+from ..engine import Analysis, is_call_to, is_suspension, short, where_fn, \
+    call_receiver, invoked
 from ..model import AnalysisError
 from ..norm import equal_algebra, symbols_of
 from .. import rules
@@ -66,8 +67,7 @@ def run(check, an: Analysis):
     n_add = 0
     for path in paths:
         add = [i for i, e in enumerate(path.events)
-               if is_call_to(e, '_add_subscriber') and e.get('exit') == 'normal'
-               and e.depth == 0]
+               if invoked(e, '_add_subscriber') and e.depth == 0 and e.kind != 'leave']
         if not add:
             continue
         n_add += 1
